@@ -361,6 +361,28 @@ theorem C12_pending_handlers_have_live_choice_points (ops : List Op) :
     ∀ p ∈ (run init ops).cont, 1 ≤ p.2 ∧ p.2 ≤ (run init ops).b :=
   (run_sorted ops init ⟨List.Pairwise.nil, by simp [init]⟩).2
 
+open Proto in
+/-- A cut (or a ball unwinding) to choice point level `k` runs only handlers whose `scc_helper/3`
+    choice point has just been removed (`k < b_cutoff`), never the handler of a goal that is still
+    running — for instance the enclosing `setup_call_cleanup/3` of a goal that prunes an inner one. -/
+theorem C12_cut_runs_only_handlers_of_removed_choice_points (k : Nat) (c : List (Nat × Nat)) :
+    ∃ ranEntries, (runCleaners k c).2 = ranEntries.map Prod.fst ∧ c = ranEntries ++ (runCleaners k c).1
+      ∧ ∀ p ∈ ranEntries, k < p.2 := by
+  refine ⟨c.takeWhile (fun p => decide (k < p.2)), (runCleaners_ran k c).1, ?_, ?_⟩
+  · rw [(runCleaners_ran k c).2]; exact (List.takeWhile_append_dropWhile).symm
+  · intro p hp
+    have := Proto.mem_takeWhile_true _ _ p hp
+    simpa using this
+
+open Proto in
+/-- Finding C12-2: the pinned loop (`<` to start, `<=` to continue) also runs handler 1, whose
+    choice point (level 1) is still the top of the stack after the cut to level 1 — the handler of the
+    still running outer goal in
+    `setup_call_cleanup(true, (setup_call_cleanup(true,(X=1;X=2),ev(ci)) -> ev(then) ; true), ev(co))`;
+    the repaired loop runs handler 2 only. -/
+example : (runCleanersPinned 1 [(2, 2), (1, 1)]).2 = [2, 1] ∧ (runCleaners 1 [(2, 2), (1, 1)]).2 = [2] := by
+  decide
+
 /-! ## non-vacuity: the outcomes of the statement on the bookkeeping machine -/
 
 open Proto in
